@@ -3,6 +3,7 @@ HOOKS = dict(guard='--cfg rbpf_verif', enable='RUSTFLAGS="--cfg rbpf_verif" (set
              baseline_off_cmd='cd /repo && cargo test --workspace --no-fail-fast --offline', source_commits=[], add_only=True)
 ENGINES = [
  dict(name='mirsym', path='engine/mirsym.py', serves_properties=['C01', 'C02', 'C05', 'C06'], kind_free_text='symbolic executor for rustc MIR text -> z3 (bit-vector + array theory)'),
+ dict(name='x86sym', path='engine/x86sym.py', serves_properties=['C03'], kind_free_text='symbolic executor for the x86-64 subset emitted by src/jit.rs'),
  dict(name='driver', path='driver/', serves_properties=['C01', 'C02', 'C05', 'C06'], kind_free_text='native replay driver (never a deciding step)'),
 ]
 NOTES = 'Solver-based checking of the real code: see DESIGN.md. Exit codes: 0 held, 1 reproduced violation, 2 inconclusive/machinery.'
@@ -32,5 +33,12 @@ CHECKS = {
    text='check_prog_len Ok <=> length/last-instruction clause; loop body at any index i of a program of any length: not rejected <=> L(i) clause by clause, next index i+1 / i+2, never a panic; loop exit verdict. '
         'Program length, index, register byte, offset, immediate and the opcode at the jump/call target are symbolic (no length bound).',
    note='Trusted: rustc MIR, mirsym intrinsic table, z3, the transcription of the statement. accept <=> WF for whole programs is the induction over the loop (paper step).'),
+ 'C03': dict(level='translation_validation', engine='x86sym+mirsym', design_ref='DESIGN.md 5/C03',
+   technique='translation validation: symbolic execution (z3) of the machine code the real JIT emitted, compared under the register map with the interpreter step extracted from MIR; whole-program runs for control flow and long distances',
+   text='Per-instruction simulation: for every opcode x a covering set (quick) / all (thorough) of dst/src pairs x the immediate/offset classes of the encoder, the bytes emitted for that instruction are executed symbolically from an '
+        'arbitrary machine state and z3 shows registers (under the map), memory, next code offset, RSP, the packet-pointer register and r12 equal the interpreter step extracted from MIR, for all operand values. '
+        'Whole-program families (jump fix-ups over variable-length encodings, loops, jumps beyond instruction 65535, divide-by-zero continuations) compare RAX and buffer bytes at the final ret with the MIR interpreter run on the same program. '
+        'Counterexamples are replayed natively (interpreter vs JIT).',
+   note='Trusted: rustc MIR, the x86-64 semantics table of x86sym (only encodings the JIT emits), z3. Assumed: eBPF-visible regions are away from the native stack scratch area; in-bounds accesses (premise). Program shapes are enumerated families; operand values are unbounded.'),
 }
 NOT_APPLICABLE = {}
